@@ -16,8 +16,8 @@ Used by C03 (snapshot isolation) and C04 (persistence).  Core Lean only.
   `writeDirtyNode`.  `Ctx.troot` is `t.root` during the operation (the Go code compares node
   pointers with it to choose root / non-root hashing).
 * Recursions that follow the key are structural on a fuel argument initialised with the key
-  length; traversals of whole sub-tries use a fuel initialised with the number of cells
-  (≥ depth of any acyclic structure in the heap).
+  length; traversals of whole sub-tries use the constant `bigFuel`; a Merkle value computation
+  that runs out of fuel reports `none` and writes nothing (it never does on an acyclic heap).
 -/
 import Gossamer.Lib.TrieMem
 namespace Gossamer
@@ -92,56 +92,72 @@ def encodeHead (H : Bytes → Bytes) (n : HNode) : Bytes :=
       | some x => if n.mbh then H x else scaleBytes x)
 
 /-- `encodeChildren…`: for every non-nil child, in index order, the SCALE bytes of its Merkle value
-    (`rec` = `CalculateMerkleValue` on the child, which may write caches) -/
-def encodeKids (rec : Heap → Addr → Heap × Bytes) (ks : Nib → Option Addr) (hp : Heap) :
-    Heap × Bytes :=
-  (List.finRange 16).foldl (fun (acc : Heap × Bytes) i =>
-    match ks i with
-    | none => acc
-    | some c => let r := rec acc.1 c; (r.1, acc.2 ++ scaleBytes r.2)) (hp, [])
+    (`rec` = `CalculateMerkleValue` on the child, which may write caches; `none` = the model ran
+    out of fuel, which stops the computation without any further write) -/
+def encodeKids (rec : Heap → Addr → Heap × Option Bytes) (ks : Nib → Option Addr) (hp : Heap) :
+    Heap × Option Bytes :=
+  (List.finRange 16).foldl (fun (acc : Heap × Option Bytes) i =>
+    match ks i, acc.2 with
+    | some c, some bs => let r := rec acc.1 c; (r.1, r.2.map (fun m => bs ++ scaleBytes m))
+    | _, _ => acc) (hp, some [])
 
-theorem encodeKids_eq (rec : Heap → Addr → Heap × Bytes) (ks : Nib → Option Addr) (hp : Heap) :
-    encodeKids rec ks hp = (List.finRange 16).foldl (fun (acc : Heap × Bytes) i =>
-    match ks i with
-    | none => acc
-    | some c => let r := rec acc.1 c; (r.1, acc.2 ++ scaleBytes r.2)) (hp, []) := rfl
+theorem encodeKids_eq (rec : Heap → Addr → Heap × Option Bytes) (ks : Nib → Option Addr) (hp : Heap) :
+    encodeKids rec ks hp = (List.finRange 16).foldl (fun (acc : Heap × Option Bytes) i =>
+    match ks i, acc.2 with
+    | some c, some bs => let r := rec acc.1 c; (r.1, r.2.map (fun m => bs ++ scaleBytes m))
+    | _, _ => acc) (hp, some []) := rfl
 
 attribute [irreducible] encodeKids
 
+/-- the children a node encodes: a leaf has none -/
+def HNode.encKids (n : HNode) : Nib → Option Addr := if n.isBranch then n.kids else noKids
+
 /-- `Node.CalculateMerkleValue` (non-root): the cached value when the node is clean and has one;
-    otherwise `EncodeAndHash`, which stores the value in `n.MerkleValue` -/
-def calcMV (H : Bytes → Bytes) : Nat → Heap → Addr → Heap × Bytes
-  | 0, hp, _ => (hp, [])
+    otherwise `EncodeAndHash`, which stores the value in `n.MerkleValue`.
+    `none` = out of fuel (nothing is written at this node then). -/
+def calcMV (H : Bytes → Bytes) : Nat → Heap → Addr → Heap × Option Bytes
+  | 0, hp, _ => (hp, none)
   | f + 1, hp, a =>
     let n := hp.get a
     match n.dirty, n.mv with
-    | false, some m => (hp, m)
+    | false, some m => (hp, some m)
     | _, _ =>
-      let r := encodeKids (calcMV H f) (if n.isBranch then n.kids else noKids) hp
-      let m := merkleValue H (encodeHead H n ++ r.2)
-      (r.1.modify a (fun x => { x with mv := some m }), m)
+      let r := encodeKids (calcMV H f) n.encKids hp
+      match r.2 with
+      | none => (r.1, none)
+      | some ks =>
+        let m := merkleValue H (encodeHead H n ++ ks)
+        (r.1.modify a (fun x => { x with mv := some m }), some m)
+
+/-- fuel of the traversals of whole sub-tries (hashing, `Entries`, `WriteDirty`, `deleteNodesLimit`):
+    far above the depth of any trie (depth ≤ number of key nibbles + 1) -/
+def bigFuel : Nat := 100000
 
 /-- `Node.EncodeAndHash` / `EncodeAndHashRoot` on the node at `a`: encoding and Merkle value; the
     Merkle value is stored in the node -/
-def encodeAndHash (H : Bytes → Bytes) (root : Bool) (hp : Heap) (a : Addr) : Heap × Bytes × Bytes :=
+def encodeAndHash (H : Bytes → Bytes) (root : Bool) (hp : Heap) (a : Addr) :
+    Heap × Option (Bytes × Bytes) :=
   let n := hp.get a
-  let r := encodeKids (calcMV H (hp.size + 1)) (if n.isBranch then n.kids else noKids) hp
-  let enc := encodeHead H n ++ r.2
-  let m := if root then H enc else merkleValue H enc
-  (r.1.modify a (fun x => { x with mv := some m }), enc, m)
+  let r := encodeKids (calcMV H bigFuel) n.encKids hp
+  match r.2 with
+  | none => (r.1, none)
+  | some ks =>
+    let enc := encodeHead H n ++ ks
+    let m := if root then H enc else merkleValue H enc
+    (r.1.modify a (fun x => { x with mv := some m }), some (enc, m))
 
 /-- `Node.CalculateRootMerkleValue` -/
-def calcRootMV (H : Bytes → Bytes) (hp : Heap) (a : Addr) : Heap × Bytes :=
+def calcRootMV (H : Bytes → Bytes) (hp : Heap) (a : Addr) : Heap × Option Bytes :=
   let n := hp.get a
-  if !n.dirty && (n.mv.getD []).length == 32 then (hp, n.mv.getD [])
-  else let r := encodeAndHash H true hp a; (r.1, r.2.2)
+  if !n.dirty && (n.mv.getD []).length == 32 then (hp, n.mv)
+  else let r := encodeAndHash H true hp a; (r.1, r.2.map (·.2))
 
 /-- `t.ensureMerkleValueIsCalculated(node)` -/
 def ensureMV (c : Ctx) (hp : Heap) : Option Addr → Heap
   | none => hp
   | some a =>
     if c.troot = some a then (calcRootMV c.H hp a).1
-    else (calcMV c.H (hp.size + 1) hp a).1
+    else (calcMV c.H (bigFuel + 1) hp a).1
 
 /-- `t.registerDeletedNodeHash(node, …)`: only its effect on the heap (Merkle value caching);
     the delta tracker is not modelled -/
@@ -159,8 +175,8 @@ def prepForMutation (c : Ctx) (copyVal : Bool) (hp : Heap) (a : Addr) : Heap × 
                         mv := none }
 
 /-- `t.Hash()` -/
-def hashRoot (H : Bytes → Bytes) (hp : Heap) : Option Addr → Heap × Bytes
-  | none => (hp, H [0])
+def hashRoot (H : Bytes → Bytes) (hp : Heap) : Option Addr → Heap × Option Bytes
+  | none => (hp, some (H [0]))
   | some a => calcRootMV H hp a
 
 /-! ### insert -/
@@ -369,6 +385,10 @@ def clearPrefixF (c : Ctx) : Nat → Heap → Option Addr → Nibs → Heap × O
 
 /-! ### ClearPrefixLimit -/
 
+/-- `deleteNodesLimit` panics on a branch without children ("got branch with all nil children");
+    the model reports it as this impossible count (the Go counters are `uint32`) -/
+def panicMark : Nat := 4294967296
+
 /-- loop state of `deleteNodesLimit` over the children of one (prepared) branch -/
 structure DnlSt where
   hp : Heap
@@ -386,6 +406,8 @@ def dnlStep (c : Ctx) (b : Addr) (rec : Heap → Option Addr → Nat → Heap ×
     | none => s
     | some ch =>
       let r := rec s.hp (some ch) s.limit
+      if r.2.2 ≥ panicMark then { s with hp := r.1, result := some (none, panicMark) }
+      else
       let hp1 := r.1.modify b (fun x => { x with kids := setKid x.kids i r.2.1 })
       let limit' := s.limit - r.2.2
       let deleted' := s.deleted + r.2.2
@@ -417,6 +439,7 @@ def dnlF (c : Ctx) : Nat → Heap → Option Addr → Nat → Heap × Option Add
     else
       let n := hp.get a
       if !n.isBranch then (registerDeleted c hp a, none, 1)
+      else if (kidIdx n.kids).isEmpty then (hp, some a, panicMark)
       else
         let p := prepForMutation c true hp a
         let fin := dnlLoop c p.2 (dnlF c f) p.1 limit
@@ -435,7 +458,7 @@ def cplF (c : Ctx) : Nat → Heap → Option Addr → Nibs → Nat → Heap × O
       if pre.isPrefixOf n.pk then (registerDeleted c hp a, none, 1, true)
       else (hp, some a, 0, true)
     else if pre.isPrefixOf n.pk then
-      let r := dnlF c (hp.size + 1) hp (some a) limit
+      let r := dnlF c bigFuel hp (some a) limit
       (r.1, r.2.1, r.2.2, r.2.1.isNone)
     else if pre.length = n.pk.length + 1 && pre.dropLast == n.pk then
       -- clearPrefixLimitChild
@@ -444,7 +467,7 @@ def cplF (c : Ctx) : Nat → Heap → Option Addr → Nibs → Nat → Heap × O
         match n.kids i with
         | none => (hp, some a, 0, true)
         | some ch =>
-          let r := dnlF c (hp.size + 1) hp (some ch) limit
+          let r := dnlF c bigFuel hp (some ch) limit
           if r.2.2 = 0 then (r.1, some a, 0, false)
           else
             let p := prepForMutation c true r.1 a
@@ -501,7 +524,7 @@ def get (hp : Heap) (root : Option Addr) (k : Bytes) : Option Bytes :=
 /-- `t.Entries()`: for every node with a value, its little-endian key and `t.Get` of that key
     (a Go map: the harness sorts it; a repeated key collapses) -/
 def entries (hp : Heap) (root : Option Addr) : List (Bytes × Option Bytes) :=
-  (keysF (hp.size + 1) hp root []).map (fun k =>
+  (keysF bigFuel hp root []).map (fun k =>
     let kle := nibblesToKeyLE k
     (kle, get hp root kle))
 
@@ -538,15 +561,18 @@ def writeDirtyF (c : Ctx) : Nat → Heap × DB → Option Addr → Heap × DB
     if !n.dirty then s
     else
       let e := encodeAndHash c.H (c.troot == some a) s.1 a
-      let db1 := if n.mbh then dbPut s.2 (nibBytes n.pk ++ c.H (n.val.getD [])) (n.val.getD [])
-                 else s.2
-      if e.2.2.length < 32 then (e.1.modify a (fun x => { x with dirty := false }), db1)
-      else
-        let db2 := dbPut db1 e.2.2 e.2.1
-        if !n.isBranch then (e.1.modify a (fun x => { x with dirty := false }), db2)
+      match e.2 with
+      | none => (e.1, s.2)
+      | some (enc, m) =>
+        let db1 := if n.mbh then dbPut s.2 (nibBytes n.pk ++ c.H (n.val.getD [])) (n.val.getD [])
+                   else s.2
+        if m.length < 32 then (e.1.modify a (fun x => { x with dirty := false }), db1)
         else
-          let s' := wdKids (writeDirtyF c f) n.kids (e.1, db2)
-          (s'.1.modify a (fun x => { x with dirty := false }), s'.2)
+          let db2 := dbPut db1 m enc
+          if !n.isBranch then (e.1.modify a (fun x => { x with dirty := false }), db2)
+          else
+            let s' := wdKids (writeDirtyF c f) n.kids (e.1, db2)
+            (s'.1.modify a (fun x => { x with dirty := false }), s'.2)
 
 /-! ### the exported methods of `InMemoryTrie` on a handle `(root, generation, version)` -/
 
@@ -587,11 +613,16 @@ def clearPrefixLimit (H : Bytes → Bytes) (hp : Heap) (t : Handle) (p : Bytes) 
 def snapshot (t : Handle) : Handle := { t with gen := t.gen + 1 }
 
 /-- `t.Hash()` -/
-def hash (H : Bytes → Bytes) (hp : Heap) (t : Handle) : Heap × Bytes := hashRoot H hp t.root
+def hash (H : Bytes → Bytes) (hp : Heap) (t : Handle) : Heap × Option Bytes := hashRoot H hp t.root
+
+/-- print a hash (`fuel` when the model ran out of fuel: never on an acyclic heap) -/
+def showHash : Option Bytes → String
+  | some m => toHex m
+  | none => "fuel"
 
 /-- `t.WriteDirty(db)` (main trie only) -/
 def writeDirty (H : Bytes → Bytes) (hp : Heap) (db : DB) (t : Handle) : Heap × DB :=
-  writeDirtyF (t.ctx H) (hp.size + 1) (hp, db) t.root
+  writeDirtyF (t.ctx H) bigFuel (hp, db) t.root
 
 end TrieHeap
 end Gossamer
